@@ -29,7 +29,7 @@ enum Class {
     Overlap,      // several guards hold (tie only)
     Unguarded,    // an unguarded edge among several (tie only)
     SingleFalse,  // one successor with a false guard: taken without a look (tie only)
-    StoreTop,     // store reaching the top of the address space (tie only)
+    StoreTop,     // stores ending at / reaching beyond 2^64, loads over the top (oracle silent only when the range wraps)
     AddrBits,     // index wider than 64 bits with a value >= 2^64
     IllTyped,     // a scalar holding a constant of another width (tie only)
     BitWidth,     // load / store of a width that is not a multiple of 8
@@ -182,6 +182,12 @@ fn build_program(r: &mut Rng, class: Class) -> Built {
             let a = u64::MAX - back + 1;
             let v = r.next();
             mutate_op(r, f0, false, Operation::store(il::expr_const(a, 64), il::expr_const(v, w)));
+            if r.chance(1, 2) {
+                // a load over the same top bytes: exact range, shorter, or wrapping
+                let d = *r.pick(&[("a", 32usize), ("x", 8), ("q", 64), ("h", 16)]);
+                let la = u64::MAX - r.range(0, 8);
+                mutate_op(r, f0, false, Operation::load(il::scalar(d.0, d.1), il::expr_const(la, 64)));
+            }
         }
         Class::AddrBits => {
             let idx = Expression::shl(
